@@ -69,14 +69,20 @@ def run(ctx) -> None:
     # (a "**" there hands every inner output, selected or not, to the enclosing state under its inner name)
     run_map_ = set(template_methods(db, "run") + template_methods(db, "map"))
     n_nested = 0
-    for q in ("runners.sync.executors.graph_node.SyncGraphNodeExecutor.__call__", "runners.async_.executors.graph_node.AsyncGraphNodeExecutor.__call__"):
-        ex = db.func(q)
-        for c, cal in db.callees(ex):
+    for qc in ("runners.sync.executors.graph_node.SyncGraphNodeExecutor", "runners.async_.executors.graph_node.AsyncGraphNodeExecutor"):
+        exc_ = db.cls(qc)
+        # the executor object is shared by every nesting level (the runner holds one per node kind and nested runs
+        # re-enter it): it keeps nothing about the node being executed between statements — no method but __init__
+        # assigns an attribute of the executor
+        stateful = [(m_, x) for m_ in exc_.methods.values() if m_.name != "__init__" for x in walk_local(m_.node) if isinstance(x, (ast.Assign, ast.AugAssign, ast.AnnAssign)) for t in (x.targets if isinstance(x, ast.Assign) else [x.target]) if isinstance(t, ast.Attribute) and isinstance(t.value, ast.Name) and t.value.id == "self"]
+        rep.add("C05.R2", f"{exc_.qname}:re-entrant", not stateful, f"{exc_.module.rel}:{(stateful[0][1] if stateful else exc_.node).lineno}", "the executor stores nothing on itself while executing a node" if not stateful else f"'{src(stateful[0][1])[:60]}' in {stateful[0][0].name} keeps the node being executed on the shared executor object: a nested run at the next level re-enters the same executor and overwrites it, so after the inner run returns the enclosing wrapper translates its results with the *inner* node's renames — a renamed output of the outer wrapper is never produced (depth >= 2)")
+        for ex in exc_.methods.values():
+          for c, cal in db.callees(ex):
             if cal.func not in run_map_:
                 continue
             n_nested += 1
             sel = bind_args(c, cal.func).get("select")
-            rep.add("C05.R3", f"{ex.qname}:{cal.func.name}:no-own-selection", sel is None, f"{ex.module.rel}:{c.lineno}", "the nested call passes no selection: the inner graph's own selection (else all outputs) applies, exactly what the wrapper advertises" if sel is None else f"the nested {cal.func.name}() is given select={src(sel)}: the inner graph's own select() is overridden, unselected inner values are written into the enclosing state under their inner names and overwrite equally named values there — the nested graph no longer exposes exactly its selected outputs")
+            rep.add("C05.R3", f"{exc_.qname}:{cal.func.name}:no-own-selection", sel is None, f"{ex.module.rel}:{c.lineno}", "the nested call passes no selection: the inner graph's own selection (else all outputs) applies, exactly what the wrapper advertises" if sel is None else f"the nested {cal.func.name}() is given select={src(sel)}: the inner graph's own select() is overridden, unselected inner values are written into the enclosing state under their inner names and overwrite equally named values there — the nested graph no longer exposes exactly its selected outputs")
     if n_nested < 4:
         raise AnalysisError(f"only {n_nested} nested run/map calls found in the graph-node executors")
     rs = db.func("runners._shared.helpers._resolve_select")
